@@ -85,6 +85,8 @@ pub enum FileCase {
     /// a sparse file of `size` bytes (zeros with a marker byte every 1 MiB - 1): long streams of
     /// many consecutive full reads
     BigSparse { size: u64, a: u64, b: u64 },
+    /// `tasks` tasks stream different unaligned ranges of ONE shared entity at the same time
+    Concurrent { size: u64, tasks: u32, per_task: u32, seed: u64 },
 }
 
 impl FileCase {
@@ -94,6 +96,7 @@ impl FileCase {
             FileCase::Meta { size } => json!({"meta": {"size": size}}),
             FileCase::NonRegular => json!("non_regular"),
             FileCase::BigSparse { size, a, b } => json!({"big_sparse": {"size": size, "a": a, "b": b}}),
+            FileCase::Concurrent { size, tasks, per_task, seed } => json!({"concurrent": {"size": size, "tasks": tasks, "per_task": per_task, "seed": seed}}),
         }
     }
     pub fn from_json(v: &Value) -> FileCase {
@@ -106,6 +109,8 @@ impl FileCase {
                 trunc: r["trunc"].as_array().map(|t| (t[0].as_u64().unwrap_or(0) as u32, t[1].as_u64().unwrap_or(0))),
                 via_serve: r["via_serve"].as_bool().unwrap_or(false),
             }
+        } else if let Some(m) = v.get("concurrent") {
+            FileCase::Concurrent { size: m["size"].as_u64().unwrap_or(0), tasks: m["tasks"].as_u64().unwrap_or(2) as u32, per_task: m["per_task"].as_u64().unwrap_or(1) as u32, seed: m["seed"].as_u64().unwrap_or(0) }
         } else if let Some(m) = v.get("big_sparse") {
             FileCase::BigSparse { size: m["size"].as_u64().unwrap_or(0), a: m["a"].as_u64().unwrap_or(0), b: m["b"].as_u64().unwrap_or(0) }
         } else if let Some(m) = v.get("meta") {
@@ -272,6 +277,76 @@ fn run_read(size: u64, a: u64, b: u64, cap: usize, trunc: Option<(u32, u64)>, vi
     if cap != 0 {
         sink.count("short_read_injected");
     }
+    (Verdict::Ok, Some(hash64(&case)), desc)
+}
+
+static RT_WIDE: crate::util::LazyRt = crate::util::LazyRt::new(8);
+
+fn run_concurrent(size: u64, tasks: u32, per_task: u32, seed: u64, sink: &mut Sink) -> (Verdict, Option<u64>, Value) {
+    let case = FileCase::Concurrent { size, tasks, per_task, seed };
+    let desc = case.to_json();
+    let dir = TempDir::new("c18c");
+    let path = dir.0.join("shared");
+    make_file(&path, size);
+    let _g = CAP_LOCK.read().unwrap_or_else(|p| p.into_inner());
+    http_serve::verif_hooks::set_read_cap(usize::MAX);
+    let crf = match File::open(&path).map_err(|e| e.to_string()).and_then(|f| Crf::new(f, http::HeaderMap::new()).map_err(|e| e.to_string())) {
+        Ok(c) => std::sync::Arc::new(c),
+        Err(e) => return (Verdict::DontCare(format!("setup failed: {}", e)), None, desc),
+    };
+    // each task: several ranges; returns the first problem it saw
+    let results: Vec<Result<Option<String>, String>> = RT_WIDE.with(|rt| {
+        rt.block_on(async {
+            let mut hs = Vec::new();
+            for t in 0..tasks {
+                let crf = crf.clone();
+                hs.push(tokio::spawn(async move {
+                    crate::util::catch(move || {
+                        let mut rng = crate::util::Rng::from_parts(seed, &[t as u64]);
+                        let w = futures_noop_waker();
+                        let mut cx = Context::from_waker(&w);
+                        for _ in 0..per_task {
+                            let a = rng.below(size - 1);
+                            let e = (a + 1 + rng.below(300_000)).min(size);
+                            let mut s = crf.get_range(a..e);
+                            let mut pos = a;
+                            loop {
+                                match s.as_mut().poll_next(&mut cx) {
+                                    Poll::Pending => continue,
+                                    Poll::Ready(None) => break,
+                                    Poll::Ready(Some(Err(er))) => return Some(format!("range {}..{}: error {} at offset {}", a, e, er, pos)),
+                                    Poll::Ready(Some(Ok(d))) => {
+                                        if let Some(i) = d.iter().enumerate().position(|(i, b)| *b != crate::ent::content_byte(pos + i as u64)) {
+                                            return Some(format!("range {}..{}: byte at file offset {} is wrong (another stream's data?)", a, e, pos + i as u64));
+                                        }
+                                        pos += d.len() as u64;
+                                    }
+                                }
+                            }
+                            if pos != e {
+                                return Some(format!("range {}..{}: ended at {}", a, e, pos));
+                            }
+                        }
+                        None
+                    })
+                }));
+            }
+            let mut out = Vec::new();
+            for h in hs {
+                out.push(h.await.unwrap_or_else(|e| Err(format!("task failed: {}", e))));
+            }
+            out
+        })
+    });
+    for r in results {
+        match r {
+            Err(p) => return (Verdict::viol(format!("panic|concurrent@{}", norm_loc(&p)), p), None, desc),
+            Ok(Some(m)) => return (Verdict::viol("wrong-bytes|concurrent-streams", format!("{} tasks streaming one shared entity: {}", tasks, m)), None, desc),
+            Ok(None) => {}
+        }
+    }
+    sink.count("concurrent_shared_entity_runs");
+    sink.add("concurrent_streams_verified", (tasks * per_task) as u64);
     (Verdict::Ok, Some(hash64(&case)), desc)
 }
 
@@ -497,6 +572,7 @@ fn run_case(c: &FileCase, sink: &mut Sink) {
         FileCase::Meta { size } => run_meta(*size, sink),
         FileCase::NonRegular => run_non_regular(sink),
         FileCase::BigSparse { size, a, b } => run_big_sparse(*size, *a, *b, sink),
+        FileCase::Concurrent { size, tasks, per_task, seed } => run_concurrent(*size, *tasks, *per_task, *seed, sink),
     };
     sink.record(v, nt, &|| desc.clone());
 }
@@ -519,10 +595,10 @@ impl Prop for C18 {
         "fault_enumeration"
     }
     fn rule(&self, ctx: &Ctx) -> String {
-        format!("real temporary files of sizes {:?} (position-hash content) on a multi-thread tokio runtime. Per size: every range with start <= end over {{0, 1, 65535, 65536, 65537, 131071, 131072, size-1, size}} x read cap {{none, 65536, 4097, 1}} (hook: short reads); truncation to {{0, start, start+1, 65535, 65536, end-1}} before poll 0, 1 and 2; the same through serve() with a Range header; metadata/ETag histories (two instances, length +1, mtime +-1ns / +-1s, replacement by a same-size same-mtime copy); construction on a directory, /dev/null and a FIFO; sparse files of 70 MiB - 2 GiB streamed completely (thousands of consecutive full reads). Non-trivial = distinct case judged (bytes compared, or truncation answered by an error within range-length+8 ready polls)", c18_sizes(ctx))
+        format!("real temporary files of sizes {:?} (position-hash content) on a multi-thread tokio runtime. Per size: every range with start <= end over {{0, 1, 65535, 65536, 65537, 131071, 131072, size-1, size}} x read cap {{none, 65536, 4097, 1}} (hook: short reads); truncation to {{0, start, start+1, 65535, 65536, end-1}} before poll 0, 1 and 2; the same through serve() with a Range header; metadata/ETag histories (two instances, length +1, mtime +-1ns / +-1s, replacement by a same-size same-mtime copy); construction on a directory, /dev/null and a FIFO; sparse files of 70 MiB - 2 GiB streamed completely (thousands of consecutive full reads); 16 tasks streaming unaligned ranges of one shared entity concurrently. Non-trivial = distinct case judged (bytes compared, or truncation answered by an error within range-length+8 ready polls)", c18_sizes(ctx))
     }
     fn n_blocks(&self, ctx: &Ctx) -> usize {
-        c18_sizes(ctx).len() * 4 + 1 + if ctx.leg.slow() { 1 } else { 16 + 3 }
+        c18_sizes(ctx).len() * 4 + 1 + if ctx.leg.slow() { 1 } else { 16 + 3 + 2 }
     }
     fn exhaustive(&self, _: &Ctx) -> bool {
         true
@@ -530,6 +606,13 @@ impl Prop for C18 {
     fn run_block(&self, b: usize, sink: &mut Sink) {
         let ctx = sink.ctx.clone();
         let sizes = c18_sizes(&ctx);
+        if !ctx.leg.slow() && b > sizes.len() * 4 + 19 {
+            // many tasks streaming one shared entity at once (positioned reads must not share a cursor)
+            let k = (b - (sizes.len() * 4 + 20)) as u64;
+            let n = if ctx.tier == Tier::Thorough { 60 } else { 25 };
+            run_case(&FileCase::Concurrent { size: 8 << 20, tasks: 16, per_task: n, seed: ctx.seed * 2 + k }, sink);
+            return;
+        }
         if !ctx.leg.slow() && b > sizes.len() * 4 + 16 {
             // very long streams (hundreds to thousands of consecutive full reads)
             let k = b - (sizes.len() * 4 + 17);
@@ -618,7 +701,7 @@ impl Prop for C18 {
     }
     fn floors(&self, ctx: &Ctx) -> Vec<(&'static str, u64)> {
         let _ = ctx;
-        vec![("ranges_verified", 500), ("truncation_reported_as_error", 500), ("multi_chunk_streams", 50), ("short_read_injected", 100), ("metadata_and_etag_histories", 3), ("non_regular_refused", 4), ("big_streams_verified", 3)]
+        vec![("ranges_verified", 500), ("truncation_reported_as_error", 500), ("multi_chunk_streams", 50), ("short_read_injected", 100), ("metadata_and_etag_histories", 3), ("non_regular_refused", 4), ("big_streams_verified", 3), ("concurrent_streams_verified", 500)]
     }
     fn assumptions(&self) -> Vec<String> {
         vec!["not judged: files with pre-epoch modification times, growing files, content changes that leave size and mtime untouched; 'bounded number of polls' = range length + 8 ready polls".into(),
